@@ -304,6 +304,24 @@ func init() {
 		return nil
 	})
 
+	// ---- math/bits ----
+	reg("math/bits.TrailingZeros64", func(in *Interp, c *frame, fn *ssa.Function, a []Value) Value {
+		x := a[0].(*Term)
+		if x.IsConst() {
+			n := 0
+			for n < 64 && x.c&(1<<uint(n)) == 0 {
+				n++
+			}
+			return mkConst(64, uint64(n))
+		}
+		tt := in.tt
+		res := mkConst(64, 64)
+		for i := 63; i >= 0; i-- {
+			res = tt.Ite(tt.Eq(tt.Extract(x, i, i), mkConst(1, 1)), mkConst(64, uint64(i)), res)
+		}
+		return res
+	})
+
 	// ---- lazyregexp: the pattern text comes from the tree being checked ----
 	lrx := "(*golang.org/x/mod/internal/lazyregexp.Regexp)."
 	pat := func(in *Interp, p Value) string {
